@@ -75,8 +75,8 @@ CLAIMS = {
          "PARTIAL: element-wise move assignment between unequal allocators, allocator-extended move, reference<->element assignment and the constructor paths of non-trivial value types are modelled as written (Elem.v) and decided by the tie: element histories on ~55 lists x 8 (quick) / 32 (thorough) allocator kinds incl. assignment into moved-from elements, different varying sizes, default and explicit allocators; per step fields, allocator, block identity and units vs model, a Python content oracle, block-sharing check, get<I>/structured bindings/reference-from-element path agreement, element comparisons by content. Not exercised: the alias cntgs::ContiguousElement (F23).",
          "5 C12"),
  "C15": ("proof (dispatch soundness over a type universe x source forms: stored = T(item); memcpy only where representation-preserving; move counts) + refutation of the pinned rule + correspondence on a catalogue of 640 instantiated cases with an independent conversion oracle",
-         "Theorems C15_*: for every stored/source type of the modelled universe (bool, integers and enumerations of every width and signedness, float/double, pointers with base-class offset, trivially copyable classes with converting constructor / conversion operator, a class with user-provided copy/move), every source form (contiguous container, node-based container, generated range, C array, pointer, contiguous iterator, other iterator, move_iterator) x lvalue/rvalue and every length: the stored objects are item by item repr(T(source item)), exactly n of them; MEMCPY_COMPATIBLE implies the conversion keeps the object representation; lvalue ranges are not moved from, rvalue ranges / move_iterators once per consumed item. C15_pinned_rule_refuted: the pinned tree's rule fails (bool <- uint8_t{2}); repaired by a fix commit. "
-         "Tie: 640 instantiations (45 type pairs x 11 FixedSize forms + 4 VaryingSize forms) of real emplace_back, values incl. extremes and lengths 0..5, iterator sources longer than the parameter; stored bytes, move counters of an instrumented class, items consumed from a generated range, source unchanged; vs the extracted model and vs a Python static_cast oracle.",
+         "Theorems C15_*: for every stored/source type of the modelled universe (bool, integers and enumerations of every width and signedness, float/double, pointers with base-class offset, trivially copyable classes with converting constructor / conversion operator, a class with user-provided copy/move, a trivially copyable source whose conversion adopts from an rvalue: Handle <- Raw), every source form (contiguous container, node-based container, generated range, C array, pointer, contiguous iterator, other iterator, move_iterator) x lvalue/rvalue and every length: the stored objects are item by item repr(T(source item)) - T(std::move(source item)) where the dispatch consumes rvalues (convm) -, exactly n of them; MEMCPY_COMPATIBLE implies the conversion keeps the object representation; lvalue ranges are not moved from, rvalue ranges / move_iterators once per consumed item. C15_pinned_rule_refuted: the pinned tree's rule fails (bool <- uint8_t{2}); repaired by a fix commit. "
+         "Tie: ~690 instantiations (48 type pairs x 13 FixedSize forms + 4 VaryingSize forms) of real emplace_back, values incl. extremes and lengths 0..5, iterator sources longer than the parameter; stored bytes, move counters of an instrumented class, items consumed from a generated range, source unchanged; vs the extracted model and vs a Python static_cast oracle.",
          "5 C15"),
  "C17": ("proof (every allocating operation allocates before any other effect; a failed step changes nothing and returns its blocks) + exhaustive fault enumeration against the real library",
          "Theorems C17_*_allocates_first: for every parameter list, allocator kind and operand state the model's construction, reserve, copy construction, copy assignment, move assignment between unequal allocators and the element's construction / copy / move assignment emit ALL their allocations before any construction, destruction, move or release (induction over the event producers). C17_failed_step_changes_nothing / _returns_its_blocks: a step whose k-th allocation fails leaves all vectors and elements as they were (strong guarantee) and releases the blocks it obtained. Scope: only the allocator throws. "
